@@ -144,7 +144,7 @@ Theorem C20_index_sqlite : forall idx : index,
 Proof. exact sqlite_roundtrip_same. Qed.
 Print Assumptions C20_index_sqlite.
 
-(* any history of writes (overwrites included), commits and clean close/reopen cycles ([sq_unspec] = false: no
+(* any history of writes (overwrites included), removals, commits and clean close/reopen cycles ([sq_unspec] = false: no
    close with uncommitted rows), then commit + close + reopen: exactly the last-written entry of every key,
    through its dictionary round trip - the identity cache never leaks a stale object across a reopen *)
 Theorem C20_index_sqlite_history : forall ops : list sq_op,
@@ -153,6 +153,16 @@ Theorem C20_index_sqlite_history : forall ops : list sq_op,
   = Ok (map (fun ke => (fst ke, with_key (entry_rt (snd ke)) (fst ke))) (sq_sets [] ops)).
 Proof. exact sqlite_roundtrip_ops. Qed.
 Print Assumptions C20_index_sqlite_history.
+
+(* ... where [sq_sets [] ops] is decided key by key by the LAST write or removal of that key (removal =
+   del index[k] / pop / delete_node of a key without descendants): present with the last written entry, or absent *)
+Theorem C20_index_sqlite_last_op : forall (ops : list sq_op) (k : key),
+  aget key_eqb k (sq_sets [] ops) = sq_last k ops None /\
+  (In k (map fst (sq_sets [] ops)) <-> sq_last k ops None <> None).
+Proof.
+  intros ops k. split; [apply (sq_sets_last ops [] k); constructor | apply sq_sets_keys].
+Qed.
+Print Assumptions C20_index_sqlite_last_op.
 
 (* ---- listing with metadata ----
    [tree_wf hn t]: keys pairwise distinct and, for every entry, key joinable, metadata present, hash named hn
